@@ -10,7 +10,8 @@ package nbp
 //@ global opt67 written-by setup4
 // (inductive: holds for the zero globals, assumed at setup entry and re-established on success)
 //@ plugin-invariant[setup6,nbpHandler6,inductive] (opt59 != nil ==> code6(opt59) == 59) && (opt60 != nil ==> code6(opt60) == 60)
-//@ plugin-invariant[setup4,nbpHandler4,inductive] (opt66 != nil ==> (optcode(opt66.Code) == 66 && ser4(*opt66))) && (opt67 != nil ==> (optcode(opt67.Code) == 67 && ser4(*opt67)))
+//@ plugin-invariant[setup4,nbpHandler4,inductive] opt66 != nil ==> (optcode(opt66.Code) == 66 && ser4(*opt66))
+//@ plugin-invariant[setup4,nbpHandler4,inductive] opt67 != nil ==> (optcode(opt67.Code) == 67 && ser4(*opt67))
 
 //@ func nbpHandler4
 //@   implements handler.Handler4
